@@ -46,6 +46,27 @@ void harness(void)
     WITNESS_POINT();
 }
 
+#elif defined(OB_SCHED2)
+/* the schedule of a key does not depend on which key was set before, on this or another object (no hidden state between
+   calls): forall K1 (KEYLEN1 bytes), forall K2 (KEYLEN bytes, free to share any bytes with K1) */
+uint8_t sym_key1[KEYLEN1], sym_key[KEYLEN];
+void harness(void)
+{
+    static KEY_T other, ks; uint8_t rk[REF_MAX_ROUNDS][8], exp[RKB], got[RKB];
+    HARNESS_BEGIN();
+    SYM_U8A(sym_key1); SYM_U8A(sym_key);
+    CHECK(SET_KEY(&other, sym_key1, KEYLEN1) == 1, "first key accepted");
+    CHECK(SET_KEY(&ks, sym_key, KEYLEN) == 1, "second key accepted");
+    int rounds = ref_rounds(CB, KEYLEN / BLK);
+    CHECK(ks.rounds == (unsigned)rounds, "round count is the specified one");
+    ref_skinny_roundkeys(CB, sym_key, KEYLEN / BLK, rounds, 0, rk);
+    for (int r = 0; r < rounds; r++) {
+        ref_pack_rk(CB, exp, rk[r]); vh_load_rk(&ks, (unsigned)r, got);
+        CHECK_BYTES_EQ(got, exp, RKB, "schedule entry equals the specification's round tweakey whatever key was set before");
+    }
+    WITNESS_POINT();
+}
+
 #elif defined(OB_ARB)
 /* forall NR-round schedule (arbitrary round tweakeys), forall block: real cipher == NR specification rounds */
 uint8_t sym_rk[NR][RKB], sym_in[BLK];
